@@ -60,12 +60,43 @@ fn check_accessors(x: &Dec) -> Vec<Violation> {
                 let (n, s) = o.as_bigint_and_exponent();
                 format!("({}, {})", n, s)
             });
-            e("ref clone_into", pair.clone(), {
-                let mut dest = BigDecimal::from(77);
-                rf.clone_into(&mut dest);
-                let (n, s) = dest.as_bigint_and_exponent();
-                format!("({}, {})", n, s)
-            });
+            // output parameter: every relation between the destination's previous contents and the new value
+            // (unrelated, zero, the same value, the negated value, the same digits at another scale, negated views)
+            let dests: Vec<(&str, BigDecimal)> = vec![
+                ("77", BigDecimal::from(77)),
+                ("0", BigDecimal::from(0)),
+                ("same", b.clone()),
+                ("negated", -b.clone()),
+                ("same digits, scale+3", BigDecimal::new(x.n.clone(), s.saturating_add(3))),
+                ("negated digits, scale-2", BigDecimal::new(-x.n.clone(), s.saturating_sub(2))),
+                ("digits+1", BigDecimal::new(&x.n + 1, s)),
+            ];
+            for (dname, d0) in dests.iter() {
+                e(&format!("ref clone_into (dest was {})", dname), pair.clone(), {
+                    let mut dest = d0.clone();
+                    rf.clone_into(&mut dest);
+                    let (n, s) = dest.as_bigint_and_exponent();
+                    format!("({}, {})", n, s)
+                });
+                e(&format!("negated ref clone_into (dest was {})", dname), format!("({}, {})", -x.n.clone(), s), {
+                    let mut dest = d0.clone();
+                    (-rf).clone_into(&mut dest);
+                    let (n, s) = dest.as_bigint_and_exponent();
+                    format!("({}, {})", n, s)
+                });
+                e(&format!("abs ref clone_into (dest was {})", dname), format!("({}, {})", x.n.abs(), s), {
+                    let mut dest = d0.clone();
+                    rf.abs().clone_into(&mut dest);
+                    let (n, s) = dest.as_bigint_and_exponent();
+                    format!("({}, {})", n, s)
+                });
+                e(&format!("clone_from (dest was {})", dname), pair.clone(), {
+                    let mut dest = d0.clone();
+                    dest.clone_from(&b);
+                    let (n, s) = dest.as_bigint_and_exponent();
+                    format!("({}, {})", n, s)
+                });
+            }
             let absn = x.n.abs();
             e("abs", format!("({}, {})", absn, s), {
                 let (n, s) = b.abs().as_bigint_and_exponent();
@@ -312,7 +343,7 @@ fn main() {
             for s in [0i128, 7, -7, 5000, -5000] {
                 let x = Dec { n: &longs[i].1 * sign, s };
                 t.states += 1;
-                t.transitions += 17 * 3 + 1;
+                t.transitions += 44 * 3 + 1;
                 t.nontrivial += 1;
                 for viol in check_accessors(&x) {
                     run.report(viol);
@@ -333,7 +364,7 @@ fn main() {
         let mut t = Tally::default();
         for x in structured_decimals(&st[i..=i], &[0, 3, -3, 19, 40], &[0, 1, 19, 20]) {
             t.states += 1;
-            t.transitions += 17 * 3 + 1;
+            t.transitions += 44 * 3 + 1;
             t.nontrivial += 1;
             for viol in check_accessors(&x) {
                 run.report(viol);
